@@ -539,6 +539,7 @@ def _check_history(ctx, w, schema, prog, plan, state0, report):
     state = state0
     viol = None
     cycle_ok = []          # closures with a cascade cycle whose in-memory delete went through
+    req_inside = []        # closures in which one member holds another under a Required reference whose relationship does not cascade
     groups = flat_plan(w, state0, plan)
     model_dels = []
     for st, grp, rec in zip(plan, groups, steps):
@@ -571,6 +572,8 @@ def _check_history(ctx, w, schema, prog, plan, state0, report):
                     viol = ('deleted-despite-required-dependent:' + w.relkind(key), {'step': st, 'closure': C, 'requires': [q, list(key), p]})
                 ctx.count('delete-ok:closure-size:%s' % (len(C) if len(C) < 4 else '4+'))
                 if len(C) > 1 and cascade_cycle(w, state, C): cycle_ok.append(C); ctx.count('delete-ok:closure-with-cascade-cycle')
+                inner = [t for t in spec_requirers(w, state, C) if t[0] in C and not w.side(w.rev(t[1]))['casc']]
+                if inner: req_inside.append([C, [inner[0][0], list(inner[0][1]), inner[0][2]]]); ctx.count('delete-ok:required-reference-inside-closure')
                 before_links = sum(len(held(so, key)) for i, so in enumerate(state) if so['alive'] and i not in C for key in w.ent_attrs[so['ent']])
                 state = spec_apply(w, state, C)
                 after_links = sum(len(held(so, key)) for i, so in enumerate(state) if so['alive'] for key in w.ent_attrs[so['ent']])
@@ -640,6 +643,11 @@ def _check_history(ctx, w, schema, prog, plan, state0, report):
                 # same root as the refused cycle: the rows of a cascade cycle cannot be deleted in an order that keeps the database's
                 # own ON DELETE actions from pre-empting Pony's optimistic UPDATE of a referrer (loud, rolled back)
                 viol = ('cascade-cycle-raises', {'plan': plan, 'closure': cycle_ok[0], 'raised': commit_err + ' at commit'})
+            elif req_inside and commit_err.endswith('IntegrityError'):
+                # both rows go, but the referencing row holds a NOT NULL key without ON DELETE action to the other one and the
+                # queue deletes the cascade target first: the database refuses (loud, rolled back)
+                viol = ('commit-failed:required-reference-inside-cascade-closure', {'plan': plan, 'closure': req_inside[0][0],
+                        'requires': req_inside[0][1], 'raised': commit_err + ' at commit'})
             else:
                 viol = ('commit-failed-after-successful-deletes:' + commit_err, {'plan': plan})
     elif got != expect and not viol:
@@ -800,6 +808,7 @@ WHAT = {
     'pending-update-lost': 'an assignment made in the session was not written by the commit',
     'assignment-raised': 'assigning a plain attribute of a live object raised',
     'commit-failed-after-successful-deletes': 'every delete succeeded but the commit raised',
+    'commit-failed': 'an object cascades (one-to-one) to a row that it also references through a Required attribute of a relationship without cascade: the delete succeeds in the session, but the queue deletes the cascade target first and the database refuses the commit (IntegrityError, rolled back)',
     'failed-commit-changed-database': 'a commit that raised changed the database',
     'delete-raised': 'a delete raised an error the property does not allow',
     'modified-base-class-stub-cannot-be-loaded': 'a delete raises NotImplementedError: it has to load an object the session knows only as a stub of its base class and has already modified (an earlier delete cleared its reference); Pony refuses the class change of an object with read/write bits',
